@@ -334,23 +334,43 @@ def extract(repo):
 
     # ---- enum
     em = C.ordered_consts('SOEnumCol', '_mysqlType')
-    expect(len(em) == 6 and em[0] == 'ENUM(%s)' and em[1] == ', ' and em[2] == 'mysql' and em[4] == ', ' and em[5] == 'mysql'
-           and em[3].startswith(em[0] + ' '), 'SOEnumCol._mysqlType constants: %r' % (em,))
-    ep = C.ordered_consts('SOEnumCol', '_postgresType')
-    expect(len(ep) == 4 and ep[0] == ', ' and ep[1] == 'postgres', 'SOEnumCol._postgresType constants: %r' % (ep,))
+    expect(len(em) == 6 and em[1] == ', ' and em[2] == 'mysql' and em[4] == ', ' and em[5] == 'mysql',
+           'SOEnumCol._mysqlType constants: %r' % (em,))
+    enum_mysql_word = word_of(em[0], r'(\w+)\(%s\)')
+    # the branch taken when None is not a value: "ENUM(%s)" possibly followed by " <extra>"
+    expect(em[3] == em[0] or em[3].startswith(em[0] + ' '), 'SOEnumCol._mysqlType second format: %r' % (em[3],))
+    enum_mysql_extra = em[3][len(em[0]) + 1:]
+    ep = C.ordered_consts('SOEnumCol', '_checkType')
+    expect(len(ep) == 3 and ep[0] == ', ', 'SOEnumCol._checkType constants: %r' % (ep,))
+    _, ckfn = C.lookup(['SOEnumCol'], '_checkType')
+    expect('sqlbuilder.sqlrepr(v, db)' in ast.unparse(ckfn) and [a.arg for a in ckfn.args.args] == ['self', 'db'],
+           'SOEnumCol._checkType no longer renders the values with sqlrepr(v, db)')
     ef = C.ordered_consts('SOEnumCol', '_firebirdType')
-    expect(len(ef) == 4 and ef[0] == ', ' and ef[1] == 'firebird' and ef[2] == ep[2], 'SOEnumCol._firebirdType constants: %r' % (ef,))
-    mchk = re.fullmatch(r'(\w+) \(%s( in \()%s(\)\))', ep[2])
-    expect(mchk, 'CHECK format: %r' % ep[2])
-    mvc = re.fullmatch(r'(\w+)\(%i\) %s', ep[3])
-    expect(mvc and ef[3] == mvc.group(1) + '(%i)', 'enum VARCHAR format: %r / %r' % (ep[3], ef[3]))
-    for d, owner_ok in (('sqlite', 'SOEnumCol'), ('sybase', 'SOEnumCol'), ('mssql', 'SOEnumCol')):
+    expect(len(ef) == 4 and ef[0] == ', ' and ef[1] == 'firebird' and ef[2] == ep[1], 'SOEnumCol._firebirdType constants: %r' % (ef,))
+    mchk = re.fullmatch(r'(\w+) \(%s( in \()%s(\)\))', ep[1])
+    expect(mchk, 'CHECK format: %r' % ep[1])
+    mvc = re.fullmatch(r'(\w+)\(%i\) %s', ep[2])
+    expect(mvc and ef[3] == mvc.group(1) + '(%i)', 'enum VARCHAR format: %r / %r' % (ep[2], ef[3]))
+    lit_db = {'mysql': 'mysql', 'firebird': 'firebird', 'maxdb': 'maxdb'}
+    for d in ('sqlite', 'postgres', 'sybase', 'mssql'):
         owner, fn = C.lookup(C.mro('SOEnumCol'), '_%sType' % d)
-        expect(owner == 'SOEnumCol', 'SOEnumCol._%sType from %s' % (d, owner))
-        if d == 'sqlite':
-            expect(C.own('SOEnumCol', '_sqliteType') == '_postgresType', 'SOEnumCol._sqliteType is no longer _postgresType')
-        else:
-            expect(ast.unparse(strip_doc(fn.body)[0]) == 'return self._postgresType()', 'SOEnumCol._%sType changed' % d)
+        expect(owner == 'SOEnumCol' and isinstance(fn, ast.FunctionDef), 'SOEnumCol._%sType from %s' % (d, owner))
+        m3 = re.fullmatch(r"return self\._checkType\('(\w+)'\)", ast.unparse(strip_doc(fn.body)[0]))
+        expect(m3 and len(strip_doc(fn.body)) == 1, 'SOEnumCol._%sType is not `return self._checkType(<db>)`' % d)
+        lit_db[d] = m3.group(1)
+    conv = parse(repo, 'sqlobject/converters.py')
+    slc = [n for n in conv.body if isinstance(n, ast.FunctionDef) and n.name == 'StringLikeConverter']
+    expect(len(slc) == 1, 'converters.StringLikeConverter not found')
+    tuples = [tuple(e.value for e in n.elts) for n in ast.walk(slc[0]) if isinstance(n, ast.Tuple)
+              and all(isinstance(e, ast.Constant) and isinstance(e.value, str) for e in n.elts) and n.elts]
+    expect(len(tuples) == 2, 'dialect tuples of StringLikeConverter: %r' % (tuples,))
+    full_dbs, plain_dbs = tuples
+
+    def lit_kind(db):
+        if db in full_dbs:
+            return '.postgres' if db == 'postgres' else '.mysql'
+        expect(db in plain_dbs, 'dialect %r unknown to StringLikeConverter' % db)
+        return '.plain'
 
     # ---- key types
     kt = {d: key_types(C, d) for d in DIALECTS}
@@ -423,6 +443,11 @@ def extract(repo):
     for name, v in zip(['none', 'cascade', 'restrict', 'setNull'], act):
         out.append('  | .%s => %s' % (name, L(v)))
     out.append('')
+    out.append('/-- which `sqlrepr` dialect renders the values of an EnumCol -/')
+    out.append('def enumLit : Dialect → LitDb')
+    for d in DIALECTS:
+        out.append('  | .%s => %s' % (d, lit_kind(lit_db[d])))
+    out.append('')
     out.append('def tables : Tables where')
     out.append('  simpleType := simpleType')
     out.append('  intBase := intBase')
@@ -449,8 +474,9 @@ def extract(repo):
     out.append('  decimalFmt := (%s, %s, %s)' % (L(m.group(1)), L(m.group(2)), L(')')))
     out.append('  currencySize := %d' % cur[1])
     out.append('  currencyPrecision := %d' % cur[3])
-    out.append('  enumMysql := %s' % pair(word_of(em[0], r'(\w+)\(%s\)'), ')'))
-    out.append('  enumMysqlNotNull := %s' % L(em[3][len(em[0]) + 1:]))
+    out.append('  enumMysql := %s' % pair(enum_mysql_word, ')'))
+    out.append('  enumMysqlExtra := %s' % L(enum_mysql_extra))
+    out.append('  enumLit := enumLit')
     out.append('  enumVarchar := %s' % pair(mvc.group(1), ')'))
     out.append('  enumCheck := (%s, %s, %s)' % (L(mchk.group(1)), L(mchk.group(2)), L(mchk.group(3))))
     out.append('  enumSep := %s' % L(ep[0]))
